@@ -295,7 +295,8 @@ BuildC20(d) ==
       variants(k, i) ==
         <<[base EXCEPT !.k = k, !.idx = i],
           [base EXCEPT !.k = k, !.idx = i, !.fvak = "frame", !.frame = fr],
-          [base EXCEPT !.k = k, !.idx = i, !.fvak = "float", !.fnum = 1, !.fden = 1 + (ds[30] % 2)],
+          \* (fraction 1, 1/2, or 0 -- `fva=0.0` is a fraction like any other)
+          [base EXCEPT !.k = k, !.idx = i, !.fvak = "float", !.fnum = IF ds[30] % 3 = 2 THEN 0 ELSE 1, !.fden = 1 + (ds[30] % 2)],
           [base EXCEPT !.k = k, !.idx = i, !.sol = any],
           [base EXCEPT !.k = k, !.idx = i, !.solgiven = FALSE, !.sol = ZeroVec(M)],
           [base EXCEPT !.k = k, !.idx = i, !.fvak = "frame", !.frame = fr,
